@@ -549,27 +549,27 @@ func writeEvidence(id, tier string, seed uint64, pc propCfg, t *workerOut, nviol
 	}
 	sort.Strings(kf)
 	cov := map[string]any{
-		"evaluations":             t.Runs,
-		"distinct_nontrivial":     len(t.NontrivialFP),
-		"rule":                    pc.Rule,
-		"samples":                 samples,
-		"families":                pc.Families,
-		"seed_base":               seed * 1000003,
-		"seeds":                   fmt.Sprintf("seed_base + worker + i*%d for run index i of each of %d workers", workers, workers),
-		"runs_per_hour":           int(float64(t.Runs) / exploreWall * 3600),
-		"sim_time_s":              float64(t.SimTimeMS) / 1000,
-		"controller_steps":        t.Steps,
-		"context_switches":        t.Switches,
-		"statements_executed":     t.Stmts,
-		"operations_sent":         t.OpsSent,
-		"distinct_fingerprints":   len(t.Fingerprints),
-		"distinct_interleavings":  len(t.Interleavings),
-		"distinct_model_states":   len(t.ModelStates),
-		"fault_fired":             t.Faults,
-		"probes":                  t.Probes,
-		"outcomes":                t.Outcomes,
-		"known_findings_hit":      t.KnownHits,
-		"known_findings_reproduced": kf,
+		"evaluations":                 t.Runs,
+		"distinct_nontrivial":         len(t.NontrivialFP),
+		"rule":                        pc.Rule,
+		"samples":                     samples,
+		"families":                    pc.Families,
+		"seed_base":                   seed * 1000003,
+		"seeds":                       fmt.Sprintf("seed_base + worker + i*%d for run index i of each of %d workers", workers, workers),
+		"runs_per_hour":               int(float64(t.Runs) / exploreWall * 3600),
+		"sim_time_s":                  float64(t.SimTimeMS) / 1000,
+		"controller_steps":            t.Steps,
+		"context_switches":            t.Switches,
+		"statements_executed":         t.Stmts,
+		"operations_sent":             t.OpsSent,
+		"distinct_fingerprints":       len(t.Fingerprints),
+		"distinct_interleavings":      len(t.Interleavings),
+		"distinct_model_states":       len(t.ModelStates),
+		"fault_fired":                 t.Faults,
+		"probes":                      t.Probes,
+		"outcomes":                    t.Outcomes,
+		"known_findings_hit":          t.KnownHits,
+		"known_findings_reproduced":   kf,
 		"other_property_observations": t.OtherProps,
 		"real_vs_stub": map[string]any{
 			"real":  []string{"server (instrumented)", "rib (instrumented)", "client (instrumented)", "fluent", "chk", "compliance", "ygot", "protobuf", "uuid", "glog"},
